@@ -30,6 +30,9 @@ var smtBuiltin = map[string]bool{
 	":pattern": true, "set-option": true, ":produce-models": true, "check-sat": true,
 }
 
+var ubiquitous = map[string]bool{"slen": true, "sat": true, "ssub": true, "scat": true, "sempty": true, "Str": true, "itag": true, "ival": true,
+	"iface": true, "Iface": true, "inil": true, "FZ": true, "FS": true, "Fuel": true, "fpred": true, "str_eq": true, "F64": true}
+
 func smtTokens(s string) []string {
 	var out []string
 	cur := strings.Builder{}
@@ -250,10 +253,28 @@ func (p *Pruner) Prune(body string) string {
 							break
 						}
 					}
-				} else {
-					// ground fact or pattern-less axiom: relevant when it shares a declared symbol with the query
+				} else if !it.quant {
+					// ground fact (e.g. the bytes of a string literal): relevant when every declared symbol it mentions,
+					// other than the ubiquitous theory functions, occurs in the query
+					take = true
+					n := 0
 					for u := range it.uses {
-						if _, declared := p.byDef[u]; declared && live[u] {
+						if _, declared := p.byDef[u]; !declared || ubiquitous[u] {
+							continue
+						}
+						n++
+						if !live[u] {
+							take = false
+							break
+						}
+					}
+					if n == 0 {
+						take = true
+					}
+				} else {
+					// pattern-less quantified axiom: relevant when it shares a declared symbol with the query
+					for u := range it.uses {
+						if _, declared := p.byDef[u]; declared && live[u] && !ubiquitous[u] {
 							take = true
 							break
 						}
@@ -275,11 +296,19 @@ func (p *Pruner) Prune(body string) string {
 		}
 	}
 	var sb strings.Builder
+	var lits []string
 	for _, it := range p.items {
 		if included[it] {
 			sb.WriteString(it.text)
 			sb.WriteString("\n")
+			if len(it.defines) == 1 && strings.HasPrefix(it.defines[0], "lit") && strings.HasPrefix(it.text, "(declare-const lit") {
+				lits = append(lits, it.defines[0])
+			}
 		}
+	}
+	// string literals are pairwise different by construction (one constant per distinct text, none empty)
+	if len(lits) >= 1 {
+		sb.WriteString("(assert (distinct sempty " + strings.Join(lits, " ") + "))\n")
 	}
 	return sb.String()
 }
